@@ -123,12 +123,18 @@ def run(chk: Check) -> None:
     ok = bool(reads) and acfg.must_pass(acfg.entry, [acfg.exit], lambda m: m in reads, edge_ok=no_exc)
     chk.ob('DOM-barrier-guard', ad, ok, 'no completion is ignored: every normal path through the done-callback reads the awaitable\'s outcome (a result skipped because "the wait is already decided" '
            '-- it is also "decided" while a pause interruption sits in the future -- never reaches the context)', kind='outcome-always-read')
+    from .common import cancellation_delivered
+    cancellation_delivered(chk, 'DOM-barrier-guard', 'workchains.Waiting._awaitable_done', 'self._waiting_future', 'the completion of an awaited item (a cancelled item is a failed one)')
     fails = [n for n in acfg.nodes if any(last_name(c) == 'set_exception' and af.canon.key(c.func.value) == 'self._waiting_future' for c in _calls(n))]
     ok = False
     for h in [h for t in ast.walk(ad.node) if isinstance(t, ast.Try) for h in t.handlers]:
         if h.type is not None and norm(h.type) in ('Exception', 'BaseException') and h.name:
             ok = any(isinstance(c, ast.Call) and last_name(c) == 'set_exception' and [norm(a) for a in c.args] == [h.name] for s in h.body for c in ast.walk(s))
-    chk.ob('DOM-barrier-guard', ad, ok and len(fails) == 1, 'a failed (or killed) awaitable fails the waiting step with that awaitable\'s exception', kind='failure-forwarded')
+    # (one forwarding site for failures proper -- the exception handled -- plus, possibly, one for a cancelled awaitable)
+    other = [n for n in fails if not any(isinstance(x, ast.ExceptHandler) and x.type is not None and norm(x.type) in ('Exception', 'BaseException') and any(n.ast is s_ or any(n.ast is y for y in ast.walk(s_)) for s_ in x.body)
+                                         for x in ast.walk(ad.node))]
+    other_ok = all(any(isinstance(x, ast.ExceptHandler) and x.type is not None and 'CancelledError' in norm(x.type) and any(any(n.ast is y for y in ast.walk(s_)) for s_ in x.body) for x in ast.walk(ad.node)) for n in other)
+    chk.ob('DOM-barrier-guard', ad, ok and len(fails) - len(other) == 1 and other_ok, 'a failed (or killed) awaitable fails the waiting step with that awaitable\'s exception', kind='failure-forwarded')
 
     # 4. failure ends EXCEPTED: Waiting.execute lets anything but an Interruption through; step() turns it into EXCEPTED
     we = prog.func('process_states.Waiting.execute')
